@@ -215,10 +215,11 @@ theorem good_unique (sc : Nat → Int) (n N : Nat)
         · rw [s2, s1, h1]
       exact this ▸ he'
     exact fun e => ⟨one a b ga gb e, one b a gb ga e⟩
-  have hperm : a.Perm b :=
-    (List.perm_ext_iff_of_nodup
-      (List.Pairwise.of_map (·.1) (fun _ _ h hab => h (hab ▸ rfl)) ga.nodup)
-      (List.Pairwise.of_map (·.1) (fun _ _ h hab => h (hab ▸ rfl)) gb.nodup)).2 memiff
+  have nda : a.Nodup := List.Pairwise.of_map (S := fun x y => x ≠ y) (fun e : Entry => e.1)
+    (fun _ _ h hab => h (by rw [hab])) ga.nodup
+  have ndb : b.Nodup := List.Pairwise.of_map (S := fun x y => x ≠ y) (fun e : Entry => e.1)
+    (fun _ _ h hab => h (by rw [hab])) gb.nodup
+  have hperm : a.Perm b := (List.perm_ext_iff_of_nodup nda ndb).2 memiff
   refine List.Perm.eq_of_pairwise (le := fun x y => x.2 ≤ y.2) ?_ ga.sorted gb.sorted hperm
   intro x y hx hy hxy hyx
   have s1 := ga.cons x hx
